@@ -53,10 +53,12 @@ int main(int argc, char **argv) {
     if (*chain) {
         char *c = strdup(chain); char *s2 = NULL;
         for (char *nm = strtok_r(c, "/", &s2); nm; nm = strtok_r(NULL, "/", &s2)) {
+            { char *n = unhex(nm); prctl(PR_SET_NAME, n, 0, 0, 0); }   /* rename BEFORE forking */
             pid_t p = fork();
-            if (p > 0) { char *n = unhex(nm); prctl(PR_SET_NAME, n, 0, 0, 0); int st; while (waitpid(p, &st, 0) < 0 && errno == EINTR) {} _exit(WIFEXITED(st) ? WEXITSTATUS(st) : 99); }
+            if (p > 0) { int st; while (waitpid(p, &st, 0) < 0 && errno == EINTR) {} _exit(WIFEXITED(st) ? WEXITSTATUS(st) : 99); }
         }
     }
+    if (*chain) prctl(PR_SET_NAME, "h_state", 0, 0, 0);
     const char *selfname = kv(kvs, "self", ""); if (*selfname) { char *n = unhex(selfname); prctl(PR_SET_NAME, n, 0, 0, 0); }
     /* ---- host name in a private UTS namespace */
     const char *host = kv(kvs, "host", "-");
